@@ -313,6 +313,12 @@ def main(argv=None):
         report.coverage["rule"] = "one relation = one watch phase (event sequence) whose rebuild is compared with a restart on a copy of the same pre-state"
         if not v or v["cnt"].get("watch_eq_restart", 0) < 60:
             report.machinery("vacuous run: too few watch/restart comparisons")
+        # Layer G: the file/step state machine (spec/FileStep.tla) model checked and replayed
+        from checks import filestep
+        fs = filestep.run(report, args.tier, args.seed, "C14")
+        report.coverage["filestep"] = fs
+        report.coverage["states"] = report.coverage.get("states", 0) + fs.get("states", 0)
+        report.coverage["traces_validated_against_impl"] = report.coverage.get("traces_validated_against_impl", 0) + fs.get("sequences", 0)
     return report.finish()
 
 
